@@ -1642,6 +1642,8 @@ func (p *Parser) evaluateSwitch(ctx context) (Statement, error) {
 
 	if switchExprValueType.IsSlice() {
 		return nil, p.atError("slices are not allowed in switch statements", exprToken)
+	} else if dataType := switchExprValueType.DataType(); dataType == DATA_TYPE_MULTIPLE || dataType == DATA_TYPE_UNKNOWN {
+		return nil, p.expectedError("single value in switch statement", exprToken)
 	}
 	beginToken := p.eat()
 
